@@ -5,6 +5,8 @@ cd "$(dirname "$0")"
 export GOFLAGS=-mod=mod GOPROXY=off GOSUMDB=off GOTOOLCHAIN=local
 ROOT=$(pwd)
 REPO=${VERIF_REPO:-/repo}
+# evidence/ describes /repo itself: runs against any other tree (seeded defects, benign changes) write theirs elsewhere
+[ "$REPO" != /repo ] && export VERIF_EVIDENCE_DIR=${VERIF_EVIDENCE_DIR:-/tmp/verif-evidence-scratch}
 VARGS=()
 infra() { echo "INFRA-ERROR $*"; exit 2; }
 
